@@ -1,11 +1,99 @@
+import OdmlModel.Model.FS
 import Driver.Util
 import Driver.Loop
 open Lean Drv
 
 namespace DrvC07
+open FS
 
-/-- Stub: replaced when the model of C07 is built. -/
-def handle (_j : Json) : Except String Json := throw "model of C07 not built"
+def excOfName (s : String) : Exc :=
+  match s with
+  | "ParserException" => .parserException
+  | "NotImplementedError" => .notImplemented
+  | _ => .other s
+
+def excName : Exc → String
+  | .parserException => "ParserException"
+  | .notImplemented => "NotImplementedError"
+  | .valueError => "ValueError"
+  | .userWarning => "UserWarning"
+  | .osError => "OSError"
+  | .other s => s
+
+/-- `{"ok": x}` / `{"raise": "Cls"}` -/
+def decRes {α} (j : Json) (dec : Json → Except String α) : Except String (Except Exc α) :=
+  match j.getObjVal? "raise" with
+  | .ok r => do pure (.error (excOfName (← r.getStr?)))
+  | .error _ => do pure (.ok (← dec (← getVal j "ok")))
+
+def decRanks (j : Json) : Except String (List Rank) := do
+  let xs ← j.getArr?
+  xs.toList.mapM fun x => do
+    let s ← x.getStr?
+    if s == "error" then pure Rank.error else pure Rank.warning
+
+def decBytes (j : Json) : Except String Bytes := do pure (← j.getStr?).toList
+
+def decFs (j : Json) : Except String (List (Path × Bytes)) := do
+  let xs ← j.getArr?
+  xs.toList.mapM fun x => do
+    match x with
+    | .arr #[a, b] => pure ((← a.getStr?).toList, (← b.getStr?).toList)
+    | _ => throw "bad fs entry"
+
+def decOptStr (j : Json) (k : String) : Option (List Char) :=
+  match j.getObjVal? k with
+  | .ok (.str s) => some s.toList
+  | _ => none
+
+def handle (j : Json) : Except String Json := do
+  let op ← getStr j "op"
+  match op with
+  | "save" =>
+    let entry ← getStr j "entry"
+    let backend := (← getStr j "backend").toList
+    let fmt := decOptStr j "rdf_format"
+    let path := (← getStr j "path").toList
+    let files ← decFs (← getVal j "fs")
+    let vres ← decRes (← getVal j "validate") decRanks
+    let rres ← decRes (← getVal j "render") decBytes
+    let sres ← decRes (← getVal j "serialize") decBytes
+    let dres ← decRes (← getVal j "decorate") (fun _ => pure ())
+    let blocked := ((← getArr j "blocked").toList.filterMap (fun x => x.getStr?.toOption)).map String.toList
+    let warnRaises ← getBool j "warn_raises"
+    let legacy := (getBool j "legacy").toOption.getD false
+    let query := ((← getArr j "query").toList.filterMap (fun x => x.getStr?.toOption)).map String.toList
+    let env : Env Unit :=
+      { validate := fun _ => vres, render := fun _ _ => rres, serialize := fun _ _ => sres,
+        decorate := fun x => match dres with | .ok _ => .ok x | .error e => .error e,
+        canOpen := fun p => !blocked.contains p, warnRaises := warnRaises }
+    let fs := Fs.ofList files
+    let (res, target) ← (match entry with
+      | "fileio" => pure (fileioSave env backend fmt () path fs, savePath path backend)
+      | "odmlwriter" =>
+        match parseBackend backend with
+        | none => pure ((fs, Outcome.raised .notImplemented), path)
+        | some b =>
+          if legacy then pure (odmlWriterWriteFileLegacy env b fmt () path fs, path)
+          else pure (odmlWriterWriteFile env b fmt () path fs, path)
+      | "xmlwriter" => pure (xmlWriterWriteFile env () path fs, path)
+      | "rdfwriter" =>
+        let f := fmt.getD "turtle".toList
+        pure (rdfWriterWriteFile env f () path fs, rdfTarget f path)
+      | _ => throw s!"unknown entry {entry}" : Except String ((Fs × Outcome) × Path))
+    let filesOut := query.map fun q =>
+      jarr [jchars q, match res.1 q with | some b => jchars b | none => Json.null]
+    let oc := match res.2 with
+      | .ok w => [("outcome", jstr "ok"), ("warned", jbool w)]
+      | .raised e => [("outcome", jstr "raised"), ("exc", jstr (excName e))]
+    let tc := match res.1 target with | some b => jchars b | none => Json.null
+    pure (jobj (oc ++ [("target", jchars target), ("target_content", tc), ("files", jarr filesOut)]))
+  | "savepath" =>
+    pure (jchars (savePath (← getStr j "path").toList (← getStr j "backend").toList))
+  | "rdftarget" =>
+    pure (jchars (rdfTarget (← getStr j "fmt").toList (← getStr j "path").toList))
+  | "rdfknown" => pure (jbool (rdfFormatKnown (← getStr j "fmt").toList))
+  | _ => throw s!"unknown op {op}"
 
 end DrvC07
 
